@@ -61,6 +61,8 @@ TYPE_TESTS = {
 
 
 def b_isinstance(E, v, cls):
+    if hasattr(v, "py_isinstance") and not isinstance(cls, tuple):
+        return v.py_isinstance(cls)
     if isinstance(cls, tuple):
         r = False
         for c in cls:
